@@ -1,0 +1,12 @@
+//go:build verif
+
+// Contracts for govc (comment-only file; see /verif/DESIGN.md section 3).
+package taproot
+
+// bip340_valid(pk, sig, m) names the verdict of BIP-340 verification on these byte strings; callers' gates are
+// stated against it. (The body of Verify is not yet under a functional contract: C16 not claimed for it.)
+//@ spec fn bip340_valid(Int, Int, Int) Bool
+//@ func (PublicKey).Verify
+//@   modifies nothing
+//@   allocates
+//@   summary result == bip340_valid(bval(pk), bval(sig), bval(m))
